@@ -31,7 +31,8 @@ vars == <<pool, ghost, calls>>
 Null == [null |-> TRUE]
 Live == calls < MaxDepth /\ calls' = calls + 1
 On(op) == op \in Ops
-Has(i) == pool[i] # Null
+Sliced(i) == pool[i] # Null /\ "sliced" \in DOMAIN pool[i]       \* a selection i[a:b]: an ordinary (non-adaptive) histogram, only looked at
+Has(i) == pool[i] # Null /\ ~Sliced(i)
 Free(k) == pool[k] = Null
 
 SumOver(S, Op(_)) == FoldSet(LAMBDA x, acc : acc + Op(x), 0, S)
@@ -75,13 +76,13 @@ Init == pool = [i \in Ids |-> Null] /\ ghost = [i \in Ids |-> {}] /\ calls = 0
 
 (* h1(None, "fixed_width", bin_width=w, adaptive=True) / h(None, ..., dim=d) *)
 NewEmpty(k, dim) ==
-    /\ Live /\ On("NewEmpty") /\ Free(k) /\ \A j \in Ids : j < k => Has(j)
+    /\ Live /\ On("NewEmpty") /\ Free(k) /\ \A j \in Ids : j < k => pool[j] # Null
     /\ pool' = [pool EXCEPT ![k] = Empty(dim)]
     /\ UNCHANGED ghost
 
 (* h1(data, "fixed_width", bin_width=w, adaptive=True): pre-filled *)
 NewFilled(k, dim, batch) ==
-    /\ Live /\ On("NewFilled") /\ Free(k) /\ \A j \in Ids : j < k => Has(j)
+    /\ Live /\ On("NewFilled") /\ Free(k) /\ \A j \in Ids : j < k => pool[j] # Null
     /\ Len(batch) > 0 /\ BatchDim(batch, dim)
     /\ pool' = [pool EXCEPT ![k] = DepositAll(Empty(dim), batch)]
     /\ ghost' = [ghost EXCEPT ![k] = GAddAll({}, batch)]
@@ -130,6 +131,19 @@ CollFillN(i, batch) ==
     /\ pool' = Shared([pool EXCEPT ![i] = DepositAll(pool[i], batch)])
     /\ ghost' = [ghost EXCEPT ![i] = GAddAll2(ghost[i], batch)]
 
+(* k = i[a:b] (1-D, 0 <= a < b <= bin count): the bins a..b-1 of i as they are NOW, with their contents; what was cut off goes *)
+(* to under/overflow, so the selection is marked `sliced` (its missed counters are C11's business, not checked here).       *)
+SliceA(i, a, b, k) ==
+    /\ Live /\ On("SliceA") /\ Has(i) /\ Free(k) /\ \A j \in Ids : j < k => pool[j] # Null
+    /\ Len(pool[i].axes) = 1 /\ a >= 0 /\ a < b /\ b <= pool[i].axes[1].count
+    /\ LET ax == pool[i].axes[1]
+           lo == ax.tmin + a
+           hi == ax.tmin + b - 1
+       IN  pool' = [pool EXCEPT ![k] = [axes |-> <<[tmin |-> lo, count |-> b - a, grid |-> ax.grid]>>,
+                                        cont |-> {t \in pool[i].cont : t[1][1] >= lo /\ t[1][1] <= hi},
+                                        w8d |-> pool[i].w8d, sliced |-> TRUE]]
+    /\ ghost' = [ghost EXCEPT ![k] = Untracked]
+
 (* k = i + j: bins are extended to the union of both ranges on the common grid, nothing is lost *)
 PlusA(a, b) ==
     [axes |-> [x \in 1..Len(a.axes) |-> UnionAxis(a.axes[x], b.axes[x])],
@@ -176,6 +190,7 @@ Next ==
     \/ \E k \in Ids, b \in Prefills : CollCreate(k, b)
     \/ \E i \in Ids, cell \in [1..1 -> Indices], cls \in Classes, w \in Weights : CollFill(i, cell, cls, w)
     \/ \E i \in Ids, b \in Batches : CollFillN(i, b)
+    \/ \E i, k \in Ids, a, b \in 0..4 : SliceA(i, a, b, k)
     \/ \E i, j, k \in Ids : Add(i, j, k)
     \/ \E i, j \in Ids : IAdd(i, j)
     \/ \E i, k \in Ids : Copy(i, k)
